@@ -21,6 +21,8 @@ pub fn u32_to_be_bytes(x: u32) -> (r: [u8; 4]) ensures r@ == be32(x) { x.to_be_b
 #[verifier::external_body]
 pub struct IoError { _p: u8 }
 pub enum Error { Io(IoError), Other }
+pub trait ErrInto<T>: Sized { spec fn conv(self) -> T; fn err_into(self) -> (r: T) ensures r == self.conv(); }
+impl ErrInto<Error> for IoError { open spec fn conv(self) -> Error { Error::Io(self) } fn err_into(self) -> (r: Error) { Error::Io(self) } }
 impl Error {
     #[verifier::external_body]
     pub fn too_long() -> (r: Self) { unimplemented!() }
@@ -70,6 +72,16 @@ pub open spec fn hdr8(code: u8, e: IsArrayElement, body_len: int, count: int) ->
 pub open spec fn hdr32(code: u8, e: IsArrayElement, body_len: int, count: int) -> Seq<u8> {
     ctor(code, e) + be32((body_len + 4) as u32) + be32(count as u32)
 }
+
+//@@ fn file=serde_amqp/src/ser.rs name=write_transparent_vec
+//@@ generics
+//@@ qmark
+//@@ param writer : &mut VecWriter
+//@@ param buf : &[u8]
+//@@ spec
+    ensures
+        r is Ok ==> final(writer).out@ == old(writer).out@ + buf@,       // [C05.transparent-vec.no-header] [C20.size.transparent-vec-adds-nothing] a transparent vector is written as the octets of its elements and nothing else: no constructor, no size, no count (what unit SERENTRY assumes of it and what the size pass counts)
+//@@ end
 
 //@@ fn file=serde_amqp/src/ser.rs name=write_list
 //@@ generics
